@@ -9,7 +9,7 @@ LOPS = ["?", "add_next", "add_node", "add_", "add_prev", "del_node", "del_", "de
         "mov_next", "mov_prev", "rot_next", "rot_prev", "swap_node", "swap_"]
 SOPS = ["?", "add", "add_head", "add_tail", "del", "del_head", "mov", "rot"]
 QOPS = ["?", "push_back", "push_fore", "insert", "pull_back", "pull_fore", "remove", "at", "fore", "back",
-        "sort_fore", "sort_back", "push_sort", "swap_elems", "swap_queues", "drop", "setz"]
+        "sort_fore", "sort_back", "push_sort", "swap_elems", "swap_queues", "drop", "setz", "walk"]
 
 
 def keyfn(d, how):
@@ -33,7 +33,7 @@ def run(pid, tier, replay=None):
         "each call is a deterministic function of the linked fields / (contents, pool size, element size)",
     ]
     exhaustive = True
-    opc = {"list": [0] * 17, "slist": [0] * 17, "que": [0] * 17}
+    opc = {"list": [0] * 18, "slist": [0] * 18, "que": [0] * 18}
     for name, mod, marker, consts, trace in runs:
         cfg = vlib.write_cfg(sc.path(name + ".cfg"), consts + ["INIT Init", "NEXT Next", "VIEW view", "INVARIANT Inv", "ACTION_CONSTRAINT Emit"])
         out = sc.path("edges-%s.out" % name)
@@ -67,7 +67,7 @@ def run(pid, tier, replay=None):
             slist={SOPS[i]: n for i, n in enumerate(opc["slist"]) if 0 < i < len(SOPS)},
             que={QOPS[i]: n for i, n in enumerate(opc["que"]) if 0 < i < len(QOPS)})
     missing = [LOPS[i] for i in range(1, 17) if opc["list"][i] == 0] + [SOPS[i] for i in range(1, 8) if opc["slist"][i] == 0] + \
-              [QOPS[i] for i in range(1, 17) if opc["que"][i] == 0]
+              [QOPS[i] for i in range(1, 18) if opc["que"][i] == 0]
     if missing:
         raise Broken("vacuity: operations never exercised: %s" % missing)
     ck.cov["rule"] = ("every transition of the TLC state graphs of List (K nodes on two heads, all ring configurations and detached chains), Slist (K nodes, two lists) "
